@@ -42,7 +42,8 @@ def pairJson (p : Nat × Nat) : Json := Json.arr #[toJson p.1, toJson p.2]
 
 def h2StJson (s : H2Lim.St) : Json :=
   Json.mkObj [("served", toJson s.served), ("pushed", toJson s.pushed), ("goaways", Json.arr (s.goaways.map pairJson).toArray),
-    ("kar", toJson s.kar), ("closed", s.lib.closed), ("up_closed", s.upClosed), ("opened", toJson s.lib.opened), ("highest", toJson s.lib.highest)]
+    ("kar", toJson s.kar), ("closed", s.lib.closed), ("up_closed", s.upClosed), ("opened", toJson s.lib.opened), ("highest", toJson s.lib.highest),
+    ("deliverable", toJson (s.served.filter (H2Lim.responseDeliverable s)))]
 
 def frameOfJson (j : Json) : Except String H2Lim.Frame := do
   let fields ← (← getArr j "fields").toList.mapM (fun p => do
@@ -54,7 +55,9 @@ def frameOfJson (j : Json) : Except String H2Lim.Frame := do
     → the advertised settings and the state after every op -/
 def h2 : Handler := fun j => do
   let cfg ← h2CfgOfJson (← j.getObjVal? "cfg")
-  let mut st : H2Lim.St := {}
+  -- "h2c": true = the connection was opened by `Upgrade: h2c` (`initiate` served the HTTP/1.1 request on stream 1)
+  let h2c := (j.getObjVal? "h2c").toOption.bind (fun b => b.getBool?.toOption) |>.getD false
+  let mut st : H2Lim.St := if h2c then H2Lim.afterUpgrade cfg else {}
   let mut outs : Array Json := #[]
   for opj in (← getArr j "ops") do
     let kind ← getStr opj "op"
